@@ -716,16 +716,23 @@ def main(ctx):
     for s in sums[:1]:
         for x in s.get("samples", [])[:2]:
             ctx.sample({"generated": x[:300]})
-    seen_sig = {}
+    # every violating program the shards kept is examined: fast attribution by repair first; only what no known
+    # finding's patch repairs is shrunk and reported (the number of shrinks is capped, the verdict is not)
+    unattributed, nknown_search = 0, 0
     for s in sums:
         for v in (s["violations"] or []):
-            key = (v["kind"], v["detail"][:60])
-            if seen_sig.get(key, 0) >= 4:
+            hit = attribute(v["src"])
+            if hit is not None:
+                nknown_search += 1
+                ctx.violation(hit, "%s (search/%s): %s" % (v["kind"], v["class"], v["src"][:120].replace("\n", " ")), {})
                 continue
-            seen_sig[key] = seen_sig.get(key, 0) + 1
-            report(v["src"], v["kind"], v["detail"], "search/" + v["class"])
+            unattributed += 1
+            if unattributed <= 8:
+                report(v["src"], v["kind"], v["detail"], "search/" + v["class"])
+    ctx.stats["search_violations"] = {"attributed_to_known": nknown_search, "unattributed": unattributed,
+                                      "dropped_by_shard_cap": sum(x.get("violations_dropped", 0) for x in sums)}
     ctx.obligation("search:no-unknown-violation(%d programs)" % agg["programs"], "correspondence",
-                   not ctx.violations, "; ".join(v["signature"] for v in ctx.violations[:5]))
+                   not ctx.violations and unattributed == 0, "; ".join(v["signature"] for v in ctx.violations[:5]))
 
     # corr2: every distinct unit through the proven verifier (sharded over model processes)
     rejects, unknown_instr, nunits = [], {}, 0
@@ -748,12 +755,20 @@ def main(ctx):
                 if a.startswith("error"):
                     unknown_instr[a[:120]] = unknown_instr.get(a[:120], 0) + 1
                 rejects.append((pfx, int(pid), a))
-        ctx.stats["corr2"] = {"distinct_units_verified": nunits, "rejected": len(rejects), "unresolved_instructions": unknown_instr}
+        written = sum(x.get("units_written", 0) for x in sums)
+        werrs = sorted(set(x.get("write_error", "") for x in sums) - {""})
+        ctx.stats["corr2"] = {"distinct_units_verified": nunits, "units_written_by_harness": written, "write_errors": werrs,
+                              "rejected": len(rejects), "unresolved_instructions": unknown_instr}
+        # every unit the shards compiled must have been seen by the verifier (a truncated dump file, e.g. a transient
+        # disk-full, would otherwise silently shrink the coverage)
+        ctx.obligation("corr:verifier-saw-every-unit", "correspondence", nunits == written and not werrs,
+                       "verified %d of %d units written; write errors: %s" % (nunits, written, werrs))
         srcs_cache = {}
-        done_sigs = 0
+        seen_prog, rej_known, rej_unattr = set(), 0, 0
         for pfx, pid, a in rejects:
-            if done_sigs >= 6:
-                break
+            if (pfx, pid) in seen_prog:
+                continue
+            seen_prog.add((pfx, pid))
             if pfx not in srcs_cache:
                 srcs_cache[pfx] = {}
                 for l in open(pfx + ".src", errors="replace"):
@@ -764,11 +779,19 @@ def main(ctx):
                         pass
             src = srcs_cache[pfx].get(pid)
             if src is None:
+                rej_unattr += 1
                 continue
-            done_sigs += 1
-            report(src, "verify-reject", a, "corr2")
+            hit = attribute(src)
+            if hit is not None:
+                rej_known += 1
+                ctx.violation(hit, "verify-reject (corr2): %s" % src[:120].replace("\n", " "), {})
+                continue
+            rej_unattr += 1
+            if rej_unattr <= 8:
+                report(src, "verify-reject", a, "corr2")
+        ctx.stats["corr2"].update({"rejected_programs": len(seen_prog), "attributed_to_known": rej_known, "unattributed": rej_unattr})
         ctx.obligation("corr:verifier-accepts-all-compiled-units(%d units)" % nunits, "correspondence",
-                       not unknown_instr and not [v for v in ctx.violations if "verify-reject" in v["summary"]],
+                       not unknown_instr and rej_unattr == 0,
                        "; ".join("%s id=%d %s" % (os.path.basename(p), i, a[:100]) for p, i, a in rejects[:5]) or "all accepted")
     else:
         ctx.obligation("corr:verifier-accepts-all-compiled-units", "correspondence", False, "model driver unavailable (Lean build failed)")
